@@ -51,6 +51,10 @@ def run(rep):
         clon_ok = (r["clonable"] == "true") == all(g for _, g in c["expect"])
         if rep.oblige(ok and vis_ok and clon_ok):
             return True
+        if [n for n, _ in got] != [n for n, _ in c["expect"]]:
+            # the generated body of a consuming method is not in a form the translator reads: nothing is known about its guard from the text
+            return {"_found": False, "what": "the self-consuming methods of the expansion are not in the recognised form (recognised: %s, in the impl block: %s): the static half of C09 "
+                                             "(guarded and public iff compliant, handle clonable iff all guarded) is no longer shown for it" % (facts, [n for n, _ in c["expect"]])}
         return {"what": "the real expansion contradicts C09's static half: self-consuming methods (name, visibility, guarded) = %s, expected guarded = %s, handle clonable = %s "
                         "(a handle must not be Clone and an unguarded consuming method must be private unless every consuming method is guarded)" % (facts, c["expect"], r["clonable"])}
 
